@@ -229,11 +229,18 @@ class CFG:
         raise AnalysisError("no CFG node for %s" % ast.dump(node)[:80])
 
     # -- queries
-    def reach(self, src: int, avoid: Iterable[int] = (), forward: bool = True, include_src: bool = False) -> set[int]:
+    def reach(self, src: int, avoid: Iterable[int] = (), forward: bool = True, include_src: bool = False, skip_exc: bool = False) -> set[int]:
         av = set(avoid)
         adj = self.succ if forward else self.pred
+        if skip_exc:
+            # ignore the "any statement in a try body may raise" edges
+            def nbrs(n):
+                return [x for x in adj[n] if self.edge_label.get((n, x) if forward else (x, n)) != "exc"]
+        else:
+            def nbrs(n):
+                return adj[n]
         seen: set[int] = set()
-        stack = [x for x in adj[src] if x not in av]
+        stack = [x for x in nbrs(src) if x not in av]
         if include_src:
             seen.add(src)
         while stack:
@@ -241,7 +248,7 @@ class CFG:
             if n in seen:
                 continue
             seen.add(n)
-            stack.extend(x for x in adj[n] if x not in av and x not in seen)
+            stack.extend(x for x in nbrs(n) if x not in av and x not in seen)
         return seen
 
     def reachable(self, n: int) -> bool:
@@ -254,11 +261,11 @@ class CFG:
             return True
         return target not in self.reach(self.entry, avoid=th)
 
-    def must_pass_after(self, src: int, through: Iterable[int], exits: Iterable[int] | None = None) -> bool:
+    def must_pass_after(self, src: int, through: Iterable[int], exits: Iterable[int] | None = None, skip_exc: bool = False) -> bool:
         """Every path src -> normal exit passes through one of `through`."""
         th = set(through)
         ex = set(exits) if exits is not None else {self.exit}
-        r = self.reach(src, avoid=th)
+        r = self.reach(src, avoid=th, skip_exc=skip_exc)
         return not (r & ex)
 
     def can_follow(self, a: int, b: int) -> bool:
